@@ -321,12 +321,13 @@ func countSyscalls(c *c05Case, syscallName string) int {
 func TestC05(t *testing.T) {
 	col := collector("C05", ruleC05)
 	t.Run("reopen", func(t *testing.T) {
-		check(t, "C05", cases(200, 4000), ev.Scale(16, 24), func(rt *rapid.T) {
+		check(t, "C05", cases(600, 8000), ev.Scale(16, 24), func(rt *rapid.T) {
 			backend := rapid.SampledFrom([]string{run.Bbolt, run.Bbolt, run.Bbolt, run.BadgerDisk}).Draw(rt, "backend")
 			p := c05Profile()
 			// also failing operations (duplicate ids, rejected imports) and reads between the writes:
 			// whatever a failed operation left in memory must not reach the disk with the next success
 			p.BadIds = true
+			p.FaultRate = 6 // and operations that fail because a store call failed
 			p.Weights = append(p.Weights, sm.W{Kind: "reopen", Weight: 12}, sm.W{Kind: "import", Weight: 6}, sm.W{Kind: "count", Weight: 4}, sm.W{Kind: "find", Weight: 3})
 			s, err := c05ReopenSession(backend)
 			if err != nil {
